@@ -59,6 +59,9 @@ fn one(ctx: &Ctx, rng: &mut StdRng, b: &Value, only: &[&'static str], rep: &mut 
     let mut last_good: Option<proto::Built> = None;
     let mut built: Option<proto::Built> = None;
     let mut chal_of_attempt: std::collections::HashMap<u64, i32> = Default::default();
+    // challenge-loop protocols (FFOW): the bytes issued in (attempt, round)
+    let mut round_bytes: std::collections::HashMap<(u64, u64), [u8; 4]> = Default::default();
+    let mut round_in_attempt = 0u64;
     let mut recv_in_attempt = 0usize;
     let mut send_in_attempt = 0usize;
     for s in sent {
@@ -67,6 +70,7 @@ fn one(ctx: &Ctx, rng: &mut StdRng, b: &Value, only: &[&'static str], rep: &mut 
             cur_attempt = a;
             recv_in_attempt = 0;
             send_in_attempt = 0;
+            round_in_attempt = 0;
             built = None;
             if reopen {
                 conns.push(Vec::new());
@@ -93,13 +97,19 @@ fn one(ctx: &Ctx, rng: &mut StdRng, b: &Value, only: &[&'static str], rep: &mut 
                 "good" => {
                     // the batch the reference server sends in reply to this send of the unit (Java: the stream was
                     // scripted on the status request; it is delivered when the client reads, after the ping)
-                    let idx = if p == "java" { 1 } else { send_in_attempt };
+                    let idx = if p == "java" { 1 } else if p == "ffow" { 0 } else { send_in_attempt };
                     reaction.batch = bb.batches.get(idx).cloned().unwrap_or_default().iter().map(|d| hex(d)).collect();
                     reaction.close = tcp;
                     let is_last_recv = recv_in_attempt + 1 == if matches!(p, "gs3" | "jc2m") { 2 } else { 1 };
-                    if is_last_recv {
+                    if is_last_recv || p == "ffow" {
                         last_good = Some(bb.clone());
                     }
+                }
+                "chal" => {
+                    round_in_attempt += 1;
+                    let c = crate::valve::strat_challenge(rng, None);
+                    round_bytes.insert((a, round_in_attempt), c);
+                    reaction.batch = vec![hex(&crate::valve::challenge_packet(c))];
                 }
                 "bad" => {
                     let m = malformed(p, recv_in_attempt);
@@ -177,6 +187,11 @@ fn one(ctx: &Ctx, rng: &mut StdRng, b: &Value, only: &[&'static str], rep: &mut 
                         let want = chal_of_attempt.get(&a).copied().unwrap_or(0);
                         let wantv = if want == 0 { Value::Null } else { json!(want) };
                         (slots["chal"] != wantv).then(|| format!("challenge {} echoed as {}", want, slots["chal"]))
+                    }
+                    "ffow.infochal" => {
+                        let want = round_bytes.get(&(a, sent[i]["round"].as_u64().unwrap())).map(|c| hex(c));
+                        (Some(slots["chal"].as_str().unwrap_or("").to_string()) != want)
+                            .then(|| format!("challenge {:?} echoed as {}", want, slots["chal"]))
                     }
                     "java.handshake" => {
                         if slots["host"] != json!(host) {
